@@ -17,7 +17,9 @@ ALPH = {
     'table': ['|', '-', '\n', 'a', '&', '\\', '%'],
 }
 DEPTH = {'quick': dict(text=5, link=5, code=6, table=6), 'thorough': dict(text=7, link=6, code=7, table=8)}
-ROLE_STRINGS = ['\\', '{', '}', '#', '%', '&', '_', '^', '$', '~', 'a_b', 'x}', '50%', '{y', '\\z', '$1', 'a&b', '^2', '#3', '~4']
+ROLE_STRINGS = ['\\', '{', '}', '#', '%', '&', '_', '^', '$', '~', 'a_b', 'x}', '50%', '{y', '\\z', '$1', 'a&b', '^2', '#3', '~4',
+                # the same special twice or three times (a routine that treats the first occurrence differently from the later ones)
+                'p#a#b', 'a%b%c', 'x_y_z', '$a$b$', '~a~b', '^a^b', '&a&b', '{a}{b}', '\\a\\b', 'h/p#a#b#c']
 EDIT = {'quick': ['\\', '}', '%', '$'], 'thorough': ['\\', '{', '}', '%', '$', '#', '&', '_', '^']}
 
 
